@@ -61,7 +61,7 @@ def instances(tier):
     for attach in ("traditional", "azimuthal"):
         out.append({"name": f"stalta_attach_{attach}", "func": "run_stalta", "kwargs": {"comps": ["vt"], "nwin": 2, "n": 4, "sta": 1.0, "lta": 2.0, "attach": attach}})
         out.append({"name": f"maxval_attach_{attach}", "func": "run_maxval", "kwargs": {"comps": ["ns", "vt"], "nwin": 2, "n": 2, "normalized": True, "attach": attach}})
-    for rel in ("locality", "scale", "widen", "conjunction"):
+    for rel in ("locality", "locality_lengths", "scale", "widen", "conjunction"):
         out.append({"name": f"stalta_{rel}", "func": "run_stalta_relation", "kwargs": {"rel": rel}})
     for comps in ([("ns",), ("ew", "vt"), COMPS] if tier == "quick" else SUBSETS):
         for normalized in (True, False):
@@ -198,6 +198,17 @@ def run_stalta_relation(rep, tier, rel):
             both = call(recs)
             alone = call(recs[:1])
             return ss, lo, hi, (id(recs[0]) in both), (id(recs[0]) in alone)
+        if rel == "locality_lengths":
+            # windows of different durations (same time step) in one list: the decision for the second, longer one is its own
+            sa, ra = mkrecs(ctx, 1, 4, tag="a")
+            sb, rb = mkrecs(ctx, 1, 6, tag="b")
+            recs = ra + rb
+            def outcome(fn):
+                try:
+                    return id(rb[0]) in fn()
+                except (ValueError, IndexError) as e:
+                    return type(e).__name__
+            return sa + sb, lo, hi, outcome(lambda: call(recs)), outcome(lambda: call(rb))
         if rel == "scale":
             c = Sym.var("c", ctx, pos=True)
             ss, recs = mkrecs(ctx, 1, n)
@@ -316,6 +327,13 @@ def replay(spec):
         recs = _recs(hvsrpy, spec)
         if rel == "locality":
             a, b = any(r is recs[0] for r in call(recs)), bool(call(recs[:1]))
+        elif rel == "locality_lengths":
+            def out(fn):
+                try:
+                    return fn()
+                except Exception as e:   # noqa
+                    return type(e).__name__
+            a, b = out(lambda: any(r is recs[1] for r in call(recs))), out(lambda: bool(call(recs[1:])))
         elif rel == "scale":
             a, b = bool(call(recs)), bool(call(_recs(hvsrpy, spec, scale=spec.get("c", 3.0))))
         elif rel == "widen":
